@@ -4,6 +4,8 @@
      A id cr seq p1 .. pk   Engine.Add WITHOUT Flush (DropNotFlushed on failure: every unflushed event is lost)
      F                      Flush                                                obs f
      D                      DropNotFlushed (back to the last Flush)              obs d<number of events lost>
+     RI fc vc               restart: NEW vecfc.Index (cache sizes fc / vc) Reset over the same DB  obs r<number of events lost>
+     DB k                   bytes stored in the persistent DB for the last k flushed events     obs b<id>=<S>:<s>:<b>/...
      Q k ord                ForklessCause on all pairs of the last k added events, twice
                                                                                   obs q<bits>/<bits>
      M k                    GetMergedHighestBefore of the last k (0 = all) events, direct and
@@ -50,8 +52,10 @@ let eval inp obs =
   let declared_mal = mal and mal = ref false and hyp_bad = ref [] in
   let nvn = nat_of_int nv in
   let q = quorum_of ws in
-  let s = ref (init nvn) and cache = ref (fcache_new (nat_of_int fcsize)) in
-  let sflushed = ref (init nvn) in
+  (* the index is the PERSISTED engine model (VecPersist.pidx: byte tables, BranchesInfo record written by
+     Flush); [s] caches its view *)
+  let p = ref (p_init nvn) in
+  let s = ref (p_view !p) and cache = ref (fcache_new (nat_of_int fcsize)) in
   let order = ref [] (* newest first *) and orderF = ref [] in
   let specE = ref [] (* (id, event), newest first: events the implementation accepted *) and specEF = ref [] in
   let table = ref None in
@@ -74,8 +78,9 @@ let eval inp obs =
     let out = (match op with
     | ("E" | "A" as kind) :: id :: cr :: sq :: ps ->
       let e = { eid = n_of_tok id; ecr = nat_of_tok cr; eseq = n_of_tok sq; epar = List.map n_of_tok ps } in
-      let (ok, st') = vs_add { vs_flushed = !sflushed; vs_cur = !s } e in
-      s := st'.vs_cur;
+      let (ok, p') = p_add !p e in
+      p := (if ok && kind = "E" then p_flush p' else p');
+      s := p_view !p;
       if ok then order := e.eid :: !order else order := !orderF;
       if iobs = "e1" then begin
         if not !mal && not (wf_evb nvn !specE e) then begin
@@ -83,15 +88,24 @@ let eval inp obs =
           mal := true end;
         specE := (e.eid, e) :: !specE; table := None end
       else begin specE := !specEF; table := None end;
-      if ok && kind = "E" then begin sflushed := !s; orderF := !order end;
+      if ok && kind = "E" then orderF := !order;
       if iobs = "e1" && kind = "E" then specEF := !specE;
       if int_of_nat (nbr !s) > nv then forkseen := true;
       if ok then "e1" else "eP" (* the real Add panics on a missing parent vector (typed-nil check), see notes *)
-    | ["F"] -> sflushed := !s; orderF := !order; specEF := !specE; "f"
+    | ["F"] -> p := p_flush !p; s := p_view !p; orderF := !order; specEF := !specE; "f"
     | ["D"] ->
       let lost = List.length !order - List.length !orderF in
-      s := !sflushed; order := !orderF; specE := !specEF; table := None;
+      p := p_drop !p; s := p_view !p; order := !orderF; specE := !specEF; table := None;
       "d" ^ string_of_int lost
+    | ["RI"; fc; _] ->
+      let lost = List.length !order - List.length !orderF in
+      p := p_restart !p; s := p_view !p; order := !orderF; specE := !specEF; table := None;
+      cache := fcache_new (nat_of_tok fc);   (* a new Index has an empty ForklessCause LRU *)
+      "r" ^ string_of_int lost
+    | ["DB"; k] ->
+      let r = lastn (int_of_string k) (List.rev !orderF) in
+      let g tbl id = (match alookup id tbl with Some b -> hex_of_bytes b | None -> "~") in
+      "b" ^ join "/" (List.map (fun id -> ntok id ^ "=" ^ g !p.p_db.pd_hb id ^ ":" ^ g !p.p_db.pd_la id ^ ":" ^ g !p.p_db.pd_br id) r)
     | ["Q"; k; ord] ->
       let r = lastn (int_of_string k) (List.rev !order) in
       let pairs = List.concat_map (fun a -> List.map (fun b -> (a, b)) r) r in
